@@ -916,6 +916,22 @@ def gen_program(rnd, depth, focus=None, isolation=False, templates=None,
     return {'templates': tps, 'steps': steps}
 
 
+def _gen_disk_program(arg):
+    sd, depth, isolation, templates = arg
+    return gen_program(random.Random(sd), depth, isolation=isolation,
+                       templates=templates, disk=True)
+
+
+def gen_disk_programs(rnd, n, depths, isolation, templates):
+    """Programs with a disk-backed receiver are generated (dry-run) in forked
+    children: the parent process of a check never touches the netCDF library,
+    so a fault there cannot end the check without a verdict."""
+    args = [(rnd.randrange(1 << 30), rnd.choice(depths), isolation, templates)
+            for _ in range(n)]
+    res = run_cases(_gen_disk_program, args, timeout=120, per_child=1)
+    return [p for p in res if isinstance(p, dict) and 'steps' in p]
+
+
 def nontrivial_key(tr):
     """(template, action sequence with argument classes) of a trace."""
     def cls(st):
@@ -985,9 +1001,8 @@ def run_isolation(out, tier):
                     [{'k': 'invalid', 'v': True}]
     # disk-backed receivers (netCDF handles keep reader state of their own)
     nd = 150 if tier == 'quick' else 1500
-    progs += [gen_program(rnd, rnd.choice([2, 3, 4]), isolation=True,
-                          templates=['T1', 'T2', 'T4', 'T5', 'T7'], disk=True)
-              for _ in range(nd)]
+    progs += gen_disk_programs(rnd, nd, [2, 3, 4], True,
+                               ['T1', 'T2', 'T4', 'T5', 'T7'])
     run_programs(out, progs, {'iso'}, 'C05-heap', prop='-')
 
 
